@@ -145,7 +145,7 @@ impl Part for LibPart {
         "messages of 1..3 statements, each mentioning the listed table `secrets` at one of 16 positions (FROM, JOIN, sub-select, CTE body, INSERT/UPDATE/DELETE target, DELETE USING, COPY, UPDATE FROM, INSERT..SELECT, derived table, EXISTS, set operation, body of a CTE that shadows the table name, earlier sibling of such a CTE) in one of 8 resolving spellings (lower, UPPER, Mixed, quoted exact, schema-qualified in 4 variants) or 5 control spellings, or decoys (column/alias/literal/CTE named secrets); plugin enabled or disabled; oracle on QueryRouter::execute_plugins for parser-accepted messages: a must-deny statement anywhere in the message => Deny; disabled => Allow. Non-trivial = spelling other than plain lower case or statement not first in the message".into()
     }
     fn cases(&self, tier: Tier) -> u64 {
-        tier.pick(60_000, 2_000_000)
+        tier.pick(240_000, 4_000_000)
     }
     fn strategy(&self, _tier: Tier) -> BoxedStrategy<LibCase> {
         (prop::bool::weighted(0.85), prop::collection::vec(item_strategy(), 1..4), prop::bool::weighted(0.3))
@@ -244,7 +244,7 @@ impl Part for WirePart {
         "sessions of 1..6 messages (simple queries of 1..3 statements, Parse/Bind/Execute batches of 1..3 statements, the intercept rule's query in 4 spellings), optionally inside BEGIN..ROLLBACK, transaction or session mode, plugins enabled or disabled, against the real binary; oracle: a message containing a must-deny statement is answered with ErrorResponse and none of its statement tags is ever received by a backend; the intercepted query returns exactly the configured rows and is not forwarded; with plugins disabled every tag arrives. Non-trivial = must-deny statement not first in its message, inside a transaction, or in an extended batch".into()
     }
     fn cases(&self, tier: Tier) -> u64 {
-        tier.pick(300, 8_000)
+        tier.pick(1_200, 16_000)
     }
     fn strategy(&self, _tier: Tier) -> BoxedStrategy<WireCase> {
         let msg = prop_oneof![
